@@ -363,6 +363,26 @@ def check_C18(pid, tier, seed, chk):
                         sites[k] = sites.get(k, 0) + int(v)
         elif line.startswith("FAIL "):
             fails.append(line)
+    # the tie between the abort-semantics model (the subject of the C18 theorems) and the code: every post-panic state of a
+    # plain LRU recorded by faultscan must be one of the states the model predicts for an abort inside that operation
+    inj = [l for l in txt.splitlines() if l.startswith("INJ ")]
+    abort_stats = dict(records=len(inj), ok=0, unmodelled=0, unexpected=0)
+    acheck = os.path.join(chk.LEAN, ".lake", "build", "bin", "abortcheck")
+    unexpected = []
+    if inj:
+        chk.sh(["lake", "build", "abortcheck"], cwd=chk.LEAN)
+        if os.path.exists(acheck):
+            q = subprocess.run([acheck], input=("\n".join(inj) + "\n").encode(), stdout=subprocess.PIPE, stderr=subprocess.PIPE, timeout=1800)
+            for r in q.stdout.decode("utf-8", "replace").splitlines():
+                if r == "ok":
+                    abort_stats["ok"] += 1
+                elif r.startswith("skip"):
+                    abort_stats["unmodelled"] += 1
+                else:
+                    abort_stats["unexpected"] += 1
+                    unexpected.append(r)
+        else:
+            proof_break.append("abortcheck does not build")
     bycase = {}
     for f in fails:
         head = f[5:].split(" | ")[0]
@@ -381,6 +401,16 @@ def check_C18(pid, tier, seed, chk):
         path = chk.write_replay(pid, seed, tier, "oracle-failure", what, c, "", "crash%s" % c[0].split()[1])
         out_lines.append("VIOLATION property=%s replay=%s" % (pid, path))
         violations += 1
+    if unexpected and violations == 0:
+        r = unexpected[0]
+        head = r.split("INJ ", 1)[-1].split(" | ")[0]
+        what = ["model-disagreement: the state the real code is left in after this injected panic is none of the states the abort-semantics "
+                "model (lean/Caches/Model/Abort.lean) predicts for that operation; the memory-safety audit itself passed",
+                "correspondence that no longer checks: abort model vs RawLRU, " + r[:600],
+                "theorems of C18 are no longer tied to this code"]
+        path = chk.write_replay(pid, seed, tier, "model-disagreement", what, script_of.get(head, [head, "end"]), "", "abort%s" % (head.split()[1] if len(head.split()) > 1 else "x"))
+        out_lines.append("VIOLATION property=%s replay=%s no-failing-input-found" % (pid, path))
+        violations += 1
     if proof_break and violations == 0:
         path = chk.write_replay(pid, seed, tier, "proof-break", ["proof-break: " + x for x in proof_break], [], "", "proof")
         out_lines.append("VIOLATION property=%s replay=%s no-failing-input-found" % (pid, path))
@@ -394,11 +424,13 @@ def check_C18(pid, tier, seed, chk):
                     "BuildHasher, KeyHasher, callback) with a panic injected at that call; afterwards the remaining operations and the drop are executed, with a "
                     "pointer-checked structural audit after every operation, quarantined+poisoned freed memory and serial-numbered objects; non-trivial = injection that fired",
                samples=[dict(case=c[0], ops=c[1:6]) for c in cases[:2]],
+               abort_model_records=abort_stats, traces_validated_against_impl=abort_stats["ok"],
                cases=done_cases, hangs_skipped=len(hangs), user_calls=total_calls, injections_fired=fired, sites=sites, crashed_cases=len(crashed),
                notes=notes + proof_break, exhaustive=False)
     chk.write_evidence(pid, tier, seed, time.time() - t0, cov,
-                       ["the abort-semantics model covers RawLRU's primitives; composite caches are covered by the fault-injection runs and by the ownership "
-                        "contracts of the primitives (DESIGN.md section 6/C18)"], violations)
+                       ["the abort-semantics model covers RawLRU (put, get, peek*, contains, *_or_put, remove, remove_lru, purge, resize, clone) and is compared "
+                        "with the real post-panic state on every injection into a plain LRU (abort_model_records); composite caches are covered by the "
+                        "fault-injection runs and by the ownership contracts of the primitives (DESIGN.md section 6/C18, 11)"], violations)
     for l in out_lines:
         print(l)
     if violations == 0:
